@@ -91,6 +91,11 @@ def projectEv (pool : String) (ev : String) : Except String Ev :=
   else if base = "Xs" || base = "Xf" then pure .noise
   -- both pools are reconciled, pool a first: its patch (always issued after a NodeClass edit) meets the fault
   else if base = "C" then (if f = .get then .error s!"bad event {ev}" else pure (.classEdit (if pool = "a" then f else .none)))
+  -- the NodeClass is deleted and re-created under its name: a fresh object, generation 1
+  else if base = "D" then (if f = .get then .error s!"bad event {ev}" else pure (.classReplace 1 (if pool = "a" then f else .none)))
+  -- NodeClass readiness flips and nodepool.readiness writes NodeClassReady, working from a copy of the NodePool that is
+  -- 0..3 events old: not this condition's business
+  else if ["Y0", "Y1", "Y2", "Y3"].contains ev then pure .noise
   else if ev = "R" then pure .restart
   else if ev = "N" then pure .resync
   else .error s!"bad event {ev}"
